@@ -1324,7 +1324,25 @@ class Engine:
             raise Unsupported('slice with step on symbolic value')
         if isinstance(base, (list, tuple)):
             if is_sym(lo) or is_sym(hi):
-                raise Unsupported('symbolic slice bounds on list')
+                if self.pure:
+                    raise Unsupported('symbolic slice bounds on list in a spec')
+                n = len(base)
+
+                def decide(b, default):
+                    # concrete clamped position of a symbolic slice bound, by case split
+                    if b is None:
+                        return default
+                    if not is_sym(b):
+                        return max(0, n + b) if b < 0 else min(b, n)
+                    bz = zterm(b, INT)
+                    pos = z3.If(bz < 0, z3.If(n + bz < 0, 0, n + bz), z3.If(bz > n, n, bz))
+                    for j in range(n + 1):
+                        if self.branch(pos == j):
+                            return j
+                    raise PathEnd()
+                a_ = decide(lo, 0)
+                b_ = decide(hi, n)
+                return base[a_:b_]
             return base[lo:hi]
         if pytype(base) == STR:
             if not is_sym(base) and not is_sym(lo) and not is_sym(hi):
